@@ -296,7 +296,7 @@ def dependency_closure(files):
             continue
         seen.add(f)
         txt = re.sub(r"\(\*.*?\*\)", "", open(f).read(), flags=re.S)
-        for m in re.finditer(r"From\s+(CV|CVmc)\s+Require\s+(?:Import\s+|Export\s+)?([^.]*(?:\.[A-Za-z_][\w]*)*)\s*\.(?:\s|$)", txt):
+        for m in re.finditer(r"From\s+(CV|CVmc)\s+Require\s+(?:Import\s+|Export\s+)?(.*?)\.(?=\s|$)", txt, flags=re.S):
             root = "theories" if m.group(1) == "CV" else "mc"
             for name in m.group(2).split():
                 todo.append(os.path.join(COQ, root, *name.split(".")) + ".v")
